@@ -36,6 +36,8 @@ type pProp struct {
 	accept  func(gp *genParser) bool
 	dkey    func(req *parsersim.Request, resp *parsersim.Response) string
 	restart int // restart the child process every so many cases (0: never)
+	// post runs after the cases of a batch; it may add violations and statistics.
+	post func(pp *pProp, pw *parserWorld, reqs []*parsersim.Request, owner []*genParser, outs []pOutcome, env []string, rep *reporter, seed uint64, stats map[string]int) int
 }
 
 func runParserProp(pp *pProp, tier string) int {
@@ -96,6 +98,9 @@ func runParserProp(pp *pProp, tier string) int {
 			to = 120 * time.Second
 		}
 		outs := runParserCases(pw, reqs, to, env, pp.restart)
+		if pp.post != nil {
+			runs += pp.post(pp, pw, reqs, owner, outs, env, rep, seed, stats)
+		}
 		for k, v := range summariseStats(outs) {
 			if strings.HasPrefix(k, "max_") {
 				if v > stats[k] {
@@ -129,11 +134,11 @@ func runParserProp(pp *pProp, tier string) int {
 				continue
 			}
 			runs += o.Resp.Runs
-		if os.Getenv("VERIF_NOTES") != "" {
-			for _, n := range o.Resp.Notes {
-				fmt.Println("NOTE:", n)
+			if os.Getenv("VERIF_NOTES") != "" {
+				for _, n := range o.Resp.Notes {
+					fmt.Println("NOTE:", n)
+				}
 			}
-		}
 			if pp.nontriv == nil || pp.nontriv(o.Resp) {
 				if pp.dkey != nil {
 					distinct[pp.dkey(reqs[i], o.Resp)] = true
